@@ -38,10 +38,29 @@ Ent(f) == f.ctl[Len(f.ctl)]
 SetEnt(f, en) == [f EXCEPT !.ctl[Len(f.ctl)] = en]
 CurBlock(p, f) == BlockAt(BodyOf(p, f.pi), Ent(f).path)
 
-Cx(p, M) == [p |-> p, fr |-> Top(M), store |-> M.store, arrs |-> M.arrs, pend |-> Top(M).pend]
+Cx(p, M) == [p |-> p, fr |-> Top(M), store |-> M.store, arrs |-> M.arrs, pend |-> Top(M).pend, err |-> M.eh.err]
 
-Fail(M, v, ln) == IF IsOOM(v) THEN [M EXCEPT !.status = [k |-> "oom", kind |-> "", ln |-> ln], !.ev = NoEv]
-                  ELSE [M EXCEPT !.status = [k |-> "error", kind |-> v[2], ln |-> ln], !.ev = NoEv]
+\* ---- run-time errors and ON ERROR (property C10) -----------------------------------------
+\* M.eh = [mode "off" | "goto" | "next", hidx (statement index of the handler label in the
+\* module body), active, err (kind of the last error), rp (control stack of the module-level
+\* code at the failed statement; <<>> when the error happened inside a procedure)]
+Fatal(M, kind, ln) == [M EXCEPT !.status = [k |-> "error", kind |-> kind, ln |-> ln], !.ev = NoEv]
+Fail(M, v, ln) ==
+    IF IsOOM(v) THEN [M EXCEPT !.status = [k |-> "oom", kind |-> "", ln |-> ln], !.ev = NoEv]
+    ELSE IF M.eh.mode = "off" \/ M.eh.active THEN Fatal(M, v[2], ln)
+    ELSE LET main == M.frames[1]
+             inmain == Len(M.frames) = 1
+         IN IF M.eh.mode = "goto" THEN
+              \* control goes to the handler in the module-level code; procedure activations are abandoned
+              [M EXCEPT !.frames = <<[main EXCEPT !.ctl = <<[path |-> <<>>, idx |-> M.eh.hidx, lp |-> [k |-> "none"]]>>, !.pend = <<>>]>>,
+                        !.eh = [M.eh EXCEPT !.active = TRUE, !.err = v[2], !.rp = IF inmain THEN main.ctl ELSE <<>>],
+                        !.ev = NoEv]
+            ELSE \* ON ERROR RESUME NEXT: the failed module-level statement is skipped
+              IF inmain THEN
+                  LET en == main.ctl[Len(main.ctl)] IN
+                  [M EXCEPT !.frames = <<[main EXCEPT !.ctl[Len(main.ctl)] = [en EXCEPT !.idx = en.idx + 1, !.lp = [k |-> "none"]], !.pend = <<>>]>>,
+                            !.eh = [M.eh EXCEPT !.err = v[2]], !.ev = NoEv]
+              ELSE [M EXCEPT !.status = [k |-> "oom", kind |-> "resume-next-in-procedure", ln |-> ln], !.ev = NoEv]
 
 \* next statement of the current block; the replay log is per statement
 Advance(M) == LET f == Top(M) en == Ent(f)
@@ -265,6 +284,19 @@ ExecStmt(p, M, s) ==
                    EXCEPT !.ev = NoEv]
            ELSE Return(p, M)
       [] s.k = "end" -> [M EXCEPT !.status = [k |-> "ended", kind |-> "", ln |-> ln], !.ev = NoEv]
+      [] s.k = "onerror" ->
+           IF s.mode = "off" THEN
+                (IF M.eh.active THEN Fatal(M, M.eh.err, ln)           \* ON ERROR GOTO 0 inside a handler re-raises
+                 ELSE [Advance([M EXCEPT !.eh = [M.eh EXCEPT !.mode = "off"]]) EXCEPT !.ev = NoEv])
+           ELSE IF M.eh.active THEN Fatal(M, "HANDLER", ln)
+           ELSE IF s.mode = "next" THEN [Advance([M EXCEPT !.eh = [M.eh EXCEPT !.mode = "next"]]) EXCEPT !.ev = NoEv]
+           ELSE [Advance([M EXCEPT !.eh = [M.eh EXCEPT !.mode = "goto", !.hidx = LabelIdx(BodyOf(p, 0), s.label)]]) EXCEPT !.ev = NoEv]
+      [] s.k = "resume" ->
+           IF ~M.eh.active THEN Fatal(M, "RESUME_WITHOUT_ERROR", ln)
+           ELSE IF M.eh.rp = <<>> THEN [M EXCEPT !.status = [k |-> "oom", kind |-> "resume-after-error-in-procedure", ln |-> ln], !.ev = NoEv]
+           ELSE LET back == [f EXCEPT !.ctl = M.eh.rp, !.pend = <<>>]
+                    M1 == [SetTop(M, back) EXCEPT !.eh = [M.eh EXCEPT !.active = FALSE], !.ev = NoEv]
+                IN IF s.next THEN [Advance(M1) EXCEPT !.ev = NoEv] ELSE M1
       [] s.k = "dim" ->
            \* one array per DIM statement in the AST
            LET es == LET RECURSIVE G(_) G(i) == IF i > Len(s.dims) THEN <<>> ELSE <<s.dims[i].lo, s.dims[i].hi>> \o G(i + 1) IN G(1)
@@ -299,5 +331,6 @@ StepM(p, M) ==
 InitM == [frames |-> <<[pi |-> 0, act |-> 0, env |-> EmptyEnv,
                         ctl |-> <<[path |-> <<>>, idx |-> 1, lp |-> NoLp]>>, pend |-> <<>>, gos |-> <<>>]>>,
           store |-> [l \in {} |-> <<>>], arrs |-> [a \in {} |-> <<>>], nact |-> 0,
+          eh |-> [mode |-> "off", hidx |-> 0, active |-> FALSE, err |-> "", rp |-> <<>>],
           status |-> [k |-> "run", kind |-> "", ln |-> 0], ev |-> NoEv]
 =============================================================================
